@@ -764,8 +764,10 @@ def _run(ctx, rng, pending):
     # non-finite floats (X2)
     for k in range(ctx.n(6, 30)):
         w = {"seed": k, "p_raise": 0.0, "p_null": 0.0, "p_null_nn": 0.0, "nonfinite": True}
-        # only the synchronous configurations: with futures the (documented) RuntimeError of the fixed tree is
-        # swallowed inside a done-callback and the outer future never completes (C08's business)
+        # only the synchronous configurations. With ThreadPoolRuntime the (documented) RuntimeError still reaches the
+        # caller promptly; when two sibling futures fail, gather_futures' on_finish calls outer.set_exception a second
+        # time and concurrent.futures logs "exception calling callback ... InvalidStateError" on stderr. No hang
+        # (verified); the restriction only keeps that noise out of the run.
         for cfg in (["blocking", "default"] if k < 2 else ["blocking"]):
             check_case(ctx, make_case("nonfinite", BASE_SDL, base, cfg, "{ f o { v } os { v } }", None, None, w), pending)
     flush(ctx, pending)
